@@ -195,11 +195,18 @@ def gen_enc_case(rng, tier, cls=None):
             "seed": rng.randint(0, 10 ** 6)}
 
 
+ROUTES = ["direct", "lazy", "stypewise", "model"]
+
+
 def reject_cases():
+    """every (encoder class, its stype, NA strategy or none) -- admissible or not -- by every construction
+    route: direct (all arguments), lazy (Enc(na_strategy=s), then the three attributes assigned), deferred
+    through StypeWiseFeatureEncoder, deferred through a model's stype_encoder_dict"""
     out = []
     for cls, st in KINDS.items():
         for na in [None] + H.ALL_NA:
-            out.append({"kind": "reject", "cls": cls, "stype": st, "na": na})
+            for route in ROUTES:
+                out.append({"kind": "reject", "cls": cls, "stype": st, "na": na, "route": route})
     return out
 
 
@@ -258,20 +265,73 @@ def impute(case, cells):
     return [[replacement(case, j) if is_missing(case["stype"], c) else c for j, c in enumerate(row)] for row in cells]
 
 
+_DS = {}
+
+
+def small_dataset(st):
+    """a two-row materialized dataset with one feature column of the stype (cached)"""
+    if st not in _DS:
+        from harness import dfgen as G
+        mk = {"numerical": [1.0, 2.0], "categorical": ["a", "b"], "multicategorical": [["a"], ["b"]],
+              "timestamp": [[2000, 1, 2, 3, 4, 5], [2001, 1, 2, 3, 4, 5]], "embedding": [[1.0], [2.0]]}
+        desc = {"n": 2, "index": "range", "target": None, "col_order": ["c"],
+                "cols": [{"name": "c", "stype": st, "dtype": "float" if st == "numerical" else "object",
+                          "cells": mk[st], "sep": None, "fmt": None, "width": 1}]}
+        ds, _ = G.build_dataset(desc)
+        ds.materialize()
+        _DS[st] = ds
+    return _DS[st]
+
+
+def run_reject(case):
+    """Does the route end in the encoder being rejected (ValueError) anywhere along it?"""
+    from torch_frame.nn import encoder as E
+    st, route = case["stype"], case.get("route", "direct")
+    cls = getattr(E, case["cls"])
+    kw = {"out_size": 2} if case["cls"] == "TimestampEncoder" else {}
+    if case["na"] is not None or case["cls"] == "TimestampEncoder":
+        kw["na_strategy"] = H.na_of(case["na"])
+    ds = small_dataset(st)
+    tf = ds.tensor_frame
+    stype_ = H.st_of(st)
+    stats_list = [ds.col_stats[nm] for nm in tf.col_names_dict[stype_]]
+    built = None
+    try:
+        if route == "direct":
+            built = cls(2, stats_list=stats_list, stype=stype_, **kw)
+        elif route == "lazy":
+            enc = cls(**kw)
+            enc.stype = stype_
+            enc.out_channels = 2
+            enc.stats_list = stats_list
+            built = enc
+        elif route == "stypewise":
+            enc = cls(**kw)
+            E.StypeWiseFeatureEncoder(2, ds.col_stats, tf.col_names_dict, {stype_: enc})
+            built = enc
+        else:
+            from torch_frame.nn.models import MLP
+            enc = cls(**kw)
+            MLP(channels=2, out_channels=1, num_layers=1, col_stats=ds.col_stats,
+                col_names_dict=tf.col_names_dict, stype_encoder_dict={stype_: enc})
+            built = enc
+    except ValueError as ex:
+        return {"raised": True, "exc": C.exc_name(ex), "msg": str(ex)[:200]}
+    except Exception as ex:
+        return {"raised": False, "other_exc": C.exc_name(ex), "msg": str(ex)[:200], "tb": C.fmt_exc()}
+    # an accepted encoder must also be usable on the data
+    try:
+        built.eval()
+        with torch.no_grad():
+            out = built(tf.feat_dict[stype_], tf.col_names_dict[stype_])
+        return {"raised": False, "runs": True, "shape": list(out.shape)}
+    except Exception as ex:
+        return {"raised": False, "runs": False, "run_exc": C.exc_name(ex), "msg": str(ex)[:200]}
+
+
 def run(case):
     if case["kind"] == "reject":
-        try:
-            with H.float64():
-                st = case["stype"]
-                stats = [H.stats_to_lib(gen_stats(C.Rng(1), st))]
-                H.build_encoder({"cls": case["cls"], "na": case["na"], "post": None,
-                                 "kw": ({"out_size": 2} if case["cls"] == "TimestampEncoder" else {})
-                                 if case["na"] is not None or case["cls"] != "TimestampEncoder"
-                                 else {"out_size": 2}},
-                                2, stats, st)
-            return {"raised": False}
-        except Exception as ex:
-            return {"raised": True, "exc": C.exc_name(ex), "msg": str(ex)[:200]}
+        return run_reject(case)
     ctx = H.float64() if case["f64"] else contextlib.nullcontext()
     with ctx:
         return run_enc(case)
@@ -467,14 +527,24 @@ def oracle(case, obs):
     cls = case["cls"]
     if case["kind"] == "reject":
         admissible = case["na"] in H.NA_ADMISSIBLE[case["stype"]]
+        route = case.get("route", "direct")
+        if obs.get("other_exc"):
+            return dict(key=f"raises:{cls}:construct:{route}", what=f"{cls}(na_strategy={case['na']}) on "
+                        f"{case['stype']} by the {route} route raised {obs['other_exc']}: {obs['msg']}",
+                        observed=obs.get("tb"))
         if admissible and obs["raised"]:
             return dict(key=f"admissible-strategy-rejected:{cls}:{case['na']}",
-                        what=f"{cls}(na_strategy={case['na']}) on {case['stype']} raised {obs.get('exc')}: "
-                             f"{obs.get('msg')}", expected="constructs", observed=obs)
+                        what=f"{cls}(na_strategy={case['na']}) on {case['stype']} ({route} route) raised "
+                             f"{obs.get('exc')}: {obs.get('msg')}", expected="constructs", observed=obs)
         if not admissible and not obs["raised"]:
-            return dict(key=f"inadmissible-strategy-accepted:{cls}:{case['na']}",
-                        what=f"{cls}(na_strategy={case['na']}) on {case['stype']} columns was accepted at "
-                             f"construction", expected="ValueError", observed=obs)
+            return dict(key=f"inadmissible-strategy-accepted:{route}",
+                        what=f"{cls}(na_strategy={case['na']}) on {case['stype']} columns was accepted by the "
+                             f"{route} construction route (the table of valid pairs demands a ValueError on every "
+                             f"route); afterwards a call {'runs' if obs.get('runs') else 'fails with ' + str(obs.get('run_exc'))}",
+                        expected="ValueError", observed=obs)
+        if admissible and not obs.get("runs") and not (cls == "TimestampEncoder" and case["na"] is None):
+            return dict(key=f"raises:{cls}:call:{route}", what=f"{cls}(na_strategy={case['na']}) accepted by the "
+                        f"{route} route but a call raised {obs.get('run_exc')}: {obs.get('msg')}")
         return None
     known = expected_finding(case)
     if not obs["ok"]:
@@ -609,7 +679,7 @@ def shrink(case):
 
 def nontrivial_sig(case, obs):
     if case["kind"] == "reject":
-        return json.dumps(["reject", case["cls"], case["na"], obs.get("raised")])
+        return json.dumps(["reject", case["cls"], case["na"], case.get("route"), obs.get("raised")])
     if not obs.get("ok"):
         return json.dumps(["raise", case["cls"], case["na"], obs.get("stage")])
     st = case["stype"]
@@ -669,7 +739,7 @@ def sanity(cases, obss):
     for mode in ("noise", "reset"):
         if d["param_modes"].get(mode, 0) == 0:
             probs.append(f"parameter mode {mode} never drawn")
-    if d["reject_cases"] < len(KINDS) * (len(H.ALL_NA) + 1):
+    if d["reject_cases"] < len(KINDS) * (len(H.ALL_NA) + 1) * len(ROUTES):
         probs.append("strategy / stype rejection table not enumerated")
     if n and d["raised"] > 0.2 * n:
         probs.append(f"{d['raised']} of {n} encoder cases raise")
